@@ -8,6 +8,12 @@ Engine E2 (histories, DESIGN §2.2/§4 C09).  A generated project
     star.py                from m import *          (star import chain into m)
     pkg/__init__.py        from . import sub as relsub; from .sub import name as rel  (relative)
     pkg/sub.py             from m import shared as name   (version A | B, same size)
+    lib/conf.py            `import conf` resolves here: root/lib is a later search-path entry
+                           (Project(root, added_sys_path=[root/lib])); `shadow+` creates a different
+                           conf.py in the root (earlier entry), `shadow-` removes it again;
+                           `m2p_keep`/`p2m_keep` put a package next to the module m.py / a module
+                           file next to the package and leave the other in place (the *winner*
+                           of the lookup changes, or must not change, while the old file stays)
 
 is driven through every history of file-system events of bounded depth.  After *every* event a
 new `Script` is built (same process — unless the event was `restart`, which continues in a new
@@ -20,9 +26,14 @@ Ownership of nondeterminism (DESIGN §2.3): the explorer owns the file clock.  A
 write/delete/rename the touched files *and their directories* are stamped with `os.utime` from a
 virtual clock (`advance` = +1 s per event, the default; deviations: `~s` same tick, `~o` the
 file carries an old mtime while the directory advances).  Pickles written by a step are stamped
-with the step's virtual time.  Every history lives in its own directory and is executed in
-processes forked from a pristine, warmed-up worker with a private helper subprocess, so that a
-history's result depends on nothing but the history (replayable alone).
+with the step's virtual time.  Every history lives in its own directory (project and cache directory nothing has seen before).
+Histories without `restart` run inside a long-lived worker with the worker's long-lived helper
+subprocess (cheap; what an editor session analysing many projects does); histories with
+`restart` run each process segment in a child forked from the worker with a helper of its own.
+A difference without a clock explanation is judged again from the pristine parent process
+(forked segments, new helpers - exactly what replay() does) before it is reported, so that a
+reported history is replayable alone; one that needs the worker's earlier histories is reported
+as `after-other-histories:<site>` together with them.
 
 Classification of a difference at the last step of a history (DESIGN §2.7):
   stale@mtime-not-advanced      some file's content differs from what it was at an earlier parse
@@ -36,8 +47,10 @@ Classification of a difference at the last step of a history (DESIGN §2.7):
 
 Levels (simplest first; a level's maximal histories have exactly the stated depth, every shorter
 history is one of their prefixes and is judged on the way):
-  quick     full alphabet depth<=1 and <=2 with <=1 clock deviation; 8-event core depth<=3, none
-  thorough  + full alphabet depth<=3, core depth<=4 and <=5, all without deviation
+  quick     full alphabet (20 events) depth<=1 and <=2 with <=1 clock deviation on the 15
+            writing events of the original alphabet; 6-event core depth<=3, none
+  thorough  + 8-event core depth<=3, full alphabet depth<=3, core depth<=4 and <=5, all without
+            deviation
 Histories with a clock deviation exist to show that the two clock explanations are the *only*
 staleness there is; their failing members are enumerated explicitly in known_findings.json.
 As soon as a level ends with a difference that has no clock explanation, deeper levels are not
@@ -81,6 +94,8 @@ assert len(SUB_VER['A']) == len(SUB_VER['B'])
 STUB = "shared: bytes\ndef fstub(x: int) -> bytes: ...\nclass K:\n    ks: bytes\n"
 INIT = "from . import sub as relsub\nfrom .sub import name as rel\n"
 STAR = "from m import *\ns_own = 1.0\n"
+CONF_LIB = "cv = 10\ndef in_lib(): pass\n"          # lib/ is a later search-path entry
+CONF_ROOT = "cv = ''\ndef in_root(): pass\n"        # shadows it from the project root
 
 MAIN = (
     "import m\n"                    # 1
@@ -111,8 +126,11 @@ MAIN = (
     "import \n"                     # 26
     "m.K.kb\n"                      # 27
     "K.kc\n"                        # 28
+    "import conf\n"                 # 29
+    "conf.cv\n"                     # 30
+    "conf.\n"                       # 31
 )
-PROJECT_NAMES = ('m', 'n', 'pkg', 'star', 'main', 'sub')
+PROJECT_NAMES = ('m', 'n', 'pkg', 'star', 'main', 'sub', 'conf', 'lib')
 
 # (form, method, line, column)
 PROBES = [
@@ -133,14 +151,18 @@ PROBES = [
     ('relative-in-pkg', 'infer', 17, 12), ('relative-in-pkg', 'complete', 22, 4),
     ('module-listing', 'complete', 24, 16), ('module-listing', 'complete', 25, 14),
     ('module-listing', 'complete', 26, 7),
+    ('import-conf', 'goto', 29, 8), ('import-conf', 'infer', 30, 7), ('import-conf', 'gotof', 30, 7),
+    ('import-conf', 'complete', 31, 5),
 ]
 
 # ------------------------------------------------------------------------------------------
 # pure model of the file system under the event alphabet
 # ------------------------------------------------------------------------------------------
 FULL = ['wA', 'wB', 'wC', 'del', 'm2p', 'p2m', '+init', '-init', '+pyi', '-pyi', 'ren', 'unren',
-        'touch', 'restart', 'sB', 'sA']
+        'touch', 'restart', 'sB', 'sA', 'shadow+', 'shadow-', 'm2p_keep', 'p2m_keep']
+NO_ANSWER = ('restart', 'shadow+', 'shadow-', 'm2p_keep', 'p2m_keep')    # advance only
 CORE = ['wB', 'wC', 'del', 'm2p', 'p2m', '+pyi', 'ren', 'restart']
+CORE6 = ['wB', 'del', 'm2p', '+pyi', 'restart', 'm2p_keep']      # quick tier's depth-3 level
 ANSWERS = ('', '~s', '~o')        # advance (default) | same tick | older file mtime
 
 
@@ -150,23 +172,24 @@ class FS:
     def __init__(self):
         self.tick = T0
         self.files = {}
-        self.dirs = {'': T0, 'pkg': T0}
+        self.dirs = {'': T0, 'pkg': T0, 'lib': T0}
         for p, c in (('m.py', M_VER['A']), ('star.py', STAR), ('pkg/__init__.py', INIT),
-                     ('pkg/sub.py', SUB_VER['A'])):
+                     ('pkg/sub.py', SUB_VER['A']), ('lib/conf.py', CONF_LIB)):
             self.files[p] = [c, T0]
         self.log = []          # real-FS operations of the last event
 
     # -- derived state
     def m_kind(self):
         if 'm.py' in self.files:
-            return 'mod'
+            return 'both' if 'm' in self.dirs else 'mod'
         if 'm' in self.dirs:
             return 'pkg'
         return None
 
     def m_src(self):
+        """The file Python's import system would pick for `m` (a package shadows a module)."""
         k = self.m_kind()
-        return {'mod': 'm.py', 'pkg': 'm/__init__.py', None: None}[k]
+        return {'mod': 'm.py', 'pkg': 'm/__init__.py', 'both': 'm/__init__.py', None: None}[k]
 
     def enabled(self, ev, prev=None):
         k = self.m_kind()
@@ -175,10 +198,14 @@ class FS:
             return src is None or self.files[src][0] != M_VER[ev[1]]
         if ev in ('del', 'touch'):
             return k is not None
-        if ev == 'm2p':
+        if ev in ('m2p', 'm2p_keep'):
             return k == 'mod'
-        if ev == 'p2m':
+        if ev in ('p2m', 'p2m_keep'):
             return k == 'pkg'
+        if ev == 'shadow+':
+            return 'conf.py' not in self.files
+        if ev == 'shadow-':
+            return 'conf.py' in self.files
         if ev == '+init':
             return 'pkg/__init__.py' not in self.files
         if ev == '-init':
@@ -253,6 +280,15 @@ class FS:
             self._remove('m/__init__.py')
             self._rmdir('m')
             self._write('m.py', content)
+        elif ev == 'm2p_keep':      # the package appears next to the module, which stays
+            self._mkdir('m')
+            self._write('m/__init__.py', M_VER[_next_ver(self.files['m.py'][0])])
+        elif ev == 'p2m_keep':      # a module file appears next to the package, which stays
+            self._write('m.py', M_VER[_next_ver(self.files['m/__init__.py'][0])])
+        elif ev == 'shadow+':       # same-named module in an earlier search-path entry
+            self._write('conf.py', CONF_ROOT)
+        elif ev == 'shadow-':
+            self._remove('conf.py')
         elif ev == '+init':
             self._write('pkg/__init__.py', INIT)
         elif ev == '-init':
@@ -303,6 +339,11 @@ class FS:
             if p.startswith(pre) and p != d:
                 out.add(p[len(pre):].split('/')[0])
         return out
+
+
+def _next_ver(content):
+    v = [k for k in 'ABC' if M_VER[k] == content][0]
+    return {'A': 'B', 'B': 'C', 'C': 'A'}[v]
 
 
 def split_event(event):
@@ -363,7 +404,7 @@ def enumerate_histories(alphabet, depth, max_dev):
             if not fs.enabled(ev, prev):
                 continue
             for ans in ANSWERS:
-                if ans and (ev == 'restart' or devs >= max_dev):
+                if ans and (ev in NO_ANSWER or devs >= max_dev):
                     continue
                 rec(prefix + [ev + ans], devs + (1 if ans else 0))
     rec([], 0)
@@ -471,6 +512,11 @@ def _battery(jedi, env, project, root):
     return json.loads(json.dumps(obs))
 
 
+def _project(jedi, root):
+    """Two search-path entries of the project: the root, then root/lib."""
+    return jedi.Project(root, added_sys_path=[os.path.join(root, 'lib')])
+
+
 def _new_env():
     from jedi.api.environment import SameEnvironment
     return SameEnvironment()
@@ -514,7 +560,8 @@ def _init():
         with open(os.path.join(root, p), 'w') as f:
             f.write(c)
     text = MAIN
-    for a, b in (('pkg', 'wu_pkg'), ('sub', 'wu_sub'), ('star', 'wu_star'), ('import m', 'import wu_m as m'),
+    for a, b in (('pkg', 'wu_pkg'), ('sub', 'wu_sub'), ('star', 'wu_star'), ('conf', 'wu_conf'),
+                 ('import m', 'import wu_m as m'),
                  ('from m ', 'from wu_m ')):
         text = text.replace(a, b)
     env = _new_env()
@@ -537,10 +584,9 @@ def _init():
     _warm = True
 
 
-def _segment_child(hdir, events, first_step, last_step, out_path):
-    """Runs in a forked child: steps first_step..last_step of the history (step 0 = the initial
-    project).  Step k>0 applies events[k-1] (a `restart` event is the process boundary itself)."""
-    jedi = boot.boot()
+def _run_steps(jedi, env, hdir, events, first_step, last_step):
+    """Steps first_step..last_step of the history in this process (step 0 = the initial project;
+    step k>0 applies events[k-1]).  -> list of observations."""
     from jedi import settings
     root = os.path.join(hdir, 'proj')
     cache_dir = os.path.join(hdir, 'cache')
@@ -550,22 +596,58 @@ def _segment_child(hdir, events, first_step, last_step, out_path):
     for e in events[:max(first_step - 1, 0)]:
         fs.apply(e)
     out = []
+    project = _project(jedi, root)
+    for k in range(first_step, last_step + 1):
+        if k == 0:
+            _disk_create(root, fs)
+        else:
+            _disk_apply(root, fs.apply(events[k - 1]))
+        _disk_check(root, fs)
+        obs = _battery(jedi, env, project, root)
+        _stamp_pickles(cache_dir, fs.tick)
+        out.append(obs)
+    return out
+
+
+def _segment_child(hdir, events, first_step, last_step, out_path):
+    """Runs in a forked child with a helper subprocess of its own (a `restart` event is the
+    process boundary itself)."""
+    jedi = boot.boot()
     env = _new_env()
-    project = jedi.Project(root)
     try:
-        for k in range(first_step, last_step + 1):
-            if k == 0:
-                _disk_create(root, fs)
-            else:
-                _disk_apply(root, fs.apply(events[k - 1]))
-            _disk_check(root, fs)
-            obs = _battery(jedi, env, project, root)
-            _stamp_pickles(cache_dir, fs.tick)
-            out.append(obs)
+        out = _run_steps(jedi, env, hdir, events, first_step, last_step)
     finally:
         _kill_env(env)
     with open(out_path, 'w') as f:
         json.dump(out, f)
+
+
+_SHARED = {'env': None, 'ran': []}
+
+
+def run_history_shared(events, tag):
+    """A history without `restart`, executed in this (long-lived worker) process with the
+    worker's long-lived helper subprocess, in a directory nothing has seen before.  Cheap (no
+    fork, no interpreter start); whatever differs from the oracle here without a clock
+    explanation is re-examined by run_history() from a pristine process before it is reported."""
+    _init()
+    jedi = boot.boot()
+    from jedi import settings
+    assert not any(split_event(e)[0] == 'restart' for e in events)
+    hdir = os.path.join(boot.scratch_root(), 'c09-s-%d-%s' % (os.getpid(), tag))
+    shutil.rmtree(hdir, ignore_errors=True)
+    os.makedirs(hdir)
+    if _SHARED['env'] is None:
+        _SHARED['env'] = _new_env()
+    saved = settings.cache_directory
+    try:
+        return _run_steps(jedi, _SHARED['env'], hdir, events, 0, len(events))
+    finally:
+        settings.cache_directory = saved
+        _SHARED['ran'].append(list(events))
+        boot.prune_parser_cache()
+        if not os.environ.get('JV_KEEP_SCRATCH'):
+            shutil.rmtree(hdir, ignore_errors=True)
 
 
 def run_history(events, tag):
@@ -643,7 +725,7 @@ def _oracle_main(in_path, out_path):
         os.utime(dp, (T0, T0))
     env = _new_env()
     try:
-        obs = _battery(jedi, env, jedi.Project(root), root)
+        obs = _battery(jedi, env, _project(jedi, root), root)
     finally:
         _kill_env(env)
     with open(out_path, 'w') as f:
@@ -708,14 +790,20 @@ def judge(events, obs, expected):
     return site, detail
 
 
+CLOCK_SITES = ('stale@mtime-not-advanced', 'stale@dir-mtime-not-advanced')
 _ORACLE = {}          # snapshot key -> observation; filled by run() before the pool forks
 
 
 def _work(task):
     """One maximal history: execute, compare every step with the oracle table."""
     events = task['events']
+    shared = not any(split_event(e)[0] == 'restart' for e in events)
+    preceding = [list(h) for h in _SHARED['ran']]
     try:
-        obs = run_history(events, str(task['n']))
+        if shared:
+            obs = run_history_shared(events, str(task['n']))
+        else:
+            obs = run_history(events, str(task['n']))
     except RuntimeError as e:
         return {'died': str(e)[-1500:]}
     steps = walk(events)
@@ -727,22 +815,31 @@ def _work(task):
         out.append({'k': k, 'digest': snap_key(obs[k]), 'snap': key,
                     'bad': None if j is None else [j[0], j[1]],
                     'nonempty': sum(1 for o in obs[k] if o)})
-    return {'steps': out}
+    res = {'steps': out, 'shared': shared}
+    if shared and any(o['bad'] and o['bad'][0] not in CLOCK_SITES for o in out):
+        res['preceding'] = preceding        # what this worker had analysed before
+    return res
 
 
-CLOCK_SITES = ('stale@mtime-not-advanced', 'stale@dir-mtime-not-advanced')
+def _confirm_isolated(events):
+    """Judge the last step of `events` again, executed from this pristine process in forked
+    segments with helpers of their own (exactly what replay() does).  -> None | (site, detail)"""
+    obs = run_history(events, 'confirm')
+    exp = _ORACLE[snap_key(walk(events)[-1][1])]
+    return judge(events, obs[-1], exp)
 
 
 def _families(tier):
     """(level name, alphabet, exact depth of the maximal histories, max clock deviations);
     simplest first.  Every history of smaller depth is a prefix of one of these."""
     if tier == 'quick':
-        return [('full16/depth<=1/dev<=1', FULL, 1, 1), ('full16/depth<=2/dev<=1', FULL, 2, 1),
-                ('core8/depth<=3/dev=0', CORE, 3, 0)]
+        return [('full20/depth<=1/dev<=1', FULL, 1, 1), ('full20/depth<=2/dev<=1', FULL, 2, 1),
+                ('core6/depth<=3/dev=0', CORE6, 3, 0)]
     # Clock deviations stay at depth <= 2 in both tiers, so that the explicit list of inputs of
     # the two clock findings in known_findings.json is the same for quick and thorough.
-    return [('full16/depth<=1/dev<=1', FULL, 1, 1), ('full16/depth<=2/dev<=1', FULL, 2, 1),
-            ('core8/depth<=3/dev=0', CORE, 3, 0), ('full16/depth<=3/dev=0', FULL, 3, 0),
+    return [('full20/depth<=1/dev<=1', FULL, 1, 1), ('full20/depth<=2/dev<=1', FULL, 2, 1),
+            ('core6/depth<=3/dev=0', CORE6, 3, 0), ('core8/depth<=3/dev=0', CORE, 3, 0),
+            ('full20/depth<=3/dev=0', FULL, 3, 0),
             ('core8/depth<=4/dev=0', CORE, 4, 0), ('core8/depth<=5/dev=0', CORE, 5, 0)]
 
 
@@ -787,6 +884,7 @@ def run(ctx):
     used_keys = set()
 
     prefixes = {}        # prefix id -> digest of the observation (all runs must agree)
+    preceding = {}       # prefix id -> histories its worker had run before (shared mode)
     verdicts = {}        # prefix id -> (site, detail) of the first run that judged it
     divergent = []
     event_hits = {}
@@ -864,6 +962,7 @@ def run(ctx):
                              % (pid_, s['nonempty'], len(PROBES)))
                 if s['bad']:
                     verdicts[pid_] = s['bad']
+                    preceding[pid_] = r.get('preceding') or []
         if pres.skipped:
             exhaustive = False
             ctx.note('level %s: %d of %d histories not explored (time cap)'
@@ -876,9 +975,36 @@ def run(ctx):
         if unexplained or any(v['site'].startswith('ProcessDied') for v in ctx.violations):
             stop = ('counterexamples without a clock explanation exist at level %s (e.g. %s); '
                     'the shortest ones are reported' % (name, (unexplained or ['a dead process'])[0]))
-    for pid_ in sorted(verdicts, key=lambda x: (x.count('.'), x.count('~'), x)):
-        site, detail = verdicts[pid_]
-        ctx.violation(site, pid_, detail, {'events': detail['history']})
+    # Differences without a clock explanation were seen in long-lived workers: before they are
+    # reported, the simplest ones of every site are judged again from this pristine process.
+    simplest = sorted(verdicts, key=lambda x: (x.count('.'), x.count('~'), x))
+    emitted = set()
+    for site in sorted({verdicts[p_][0] for p_ in simplest} - set(CLOCK_SITES)):
+        tried = 0
+        for pid_ in [p_ for p_ in simplest if verdicts[p_][0] == site]:
+            if tried >= 4 or pid_ in emitted:
+                break
+            tried += 1
+            detail = verdicts[pid_][1]
+            try:
+                j = _confirm_isolated(detail['history'])
+            except RuntimeError as e:
+                j = ('ProcessDied@history', {'history': detail['history'], 'error': str(e)[-800:]})
+            emitted.add(pid_)
+            if j is not None:
+                ctx.violation(j[0], pid_, j[1], {'events': detail['history']})
+                if j[0] == site:
+                    break
+            else:
+                detail = dict(detail, note='not reproduced by this history alone in a new process: '
+                              'state left by histories the worker analysed before (other '
+                              'directories) leaks into this one')
+                ctx.violation('after-other-histories:' + site, pid_, detail,
+                              {'events': detail['history'], 'preceding': preceding.get(pid_, [])})
+    for pid_ in simplest:
+        if pid_ not in emitted:
+            site, detail = verdicts[pid_]
+            ctx.violation(site, pid_, detail, {'events': detail['history']})
     if divergent:
         msg = ('re-walking a history prefix gave a different observation for %d prefixes, e.g. %s'
                % (len(divergent), divergent[:3]))
@@ -930,8 +1056,18 @@ def run(ctx):
 def replay(case):
     events = case['events']
     _init()
-    obs = run_history(events, 'replay')
     expected = fresh_oracle(walk(events)[-1][1], 'replay')
+    if case.get('preceding'):
+        # the case needs what its worker had analysed before: one long-lived process
+        for i, h in enumerate(case['preceding']):
+            run_history_shared(h, 'pre%d' % i)
+        obs = run_history_shared(events, 'replay')
+        _kill_env(_SHARED['env'])
+        j = judge(events, obs[-1], expected)
+        if j is None:
+            return []
+        return [('after-other-histories:' + j[0], hid(events), j[1])]
+    obs = run_history(events, 'replay')
     j = judge(events, obs[-1], expected)
     if j is None:
         return []
